@@ -5,14 +5,14 @@
    (`jit_add_reloc_image`); this file adds what the patched .text bytes ARE at every site. *)
 From Coq Require Import ZArith List Bool Lia.
 From Verif Require Import Base.ZBits Codec.OffsetModel Labels.LabelsModel Reloc.RelocModel Reloc.RelocProofs
-  Sections.SectionModel Sections.ChunkModel Sections.CopyProofs Sections.ChunkProofs Sections.JitReloc Sections.JitRelocProofs.
+  Sections.SectionModel Sections.ChunkModel Sections.CopyProofs Sections.ChunkProofs Sections.SettleProofs Sections.JitReloc Sections.JitRelocProofs.
 Import ListNotations.
 Local Open Scope Z_scope.
 
 Definition site_lo (e : rentry) : Z := e_off e + e_lead e - 2.
 Definition site_hi (e : rentry) : Z := e_off e + e_lead e + vsize (e_fmt e).
 Definition site_wf (data : list Z) (e : rentry) : Prop :=
-  2 <= e_off e + e_lead e /\ 0 <= vsize (e_fmt e) /\ site_hi e <= Z.of_nat (length data).
+  0 <= e_off e + e_lead e /\ 0 <= vsize (e_fmt e) /\ site_hi e <= Z.of_nat (length data).
 
 (* one patched site: the value word and the two bytes in front of it *)
 Lemma patch_site_word data e o k : site_wf data e -> 0 <= k < vsize (e_fmt e) ->
@@ -27,26 +27,28 @@ Proof.
       with true by (symmetry; apply andb_true_iff; split; [apply Z.leb_le|apply Z.ltb_lt]; lia).
     f_equal. lia. }
   destruct (o_rewrite o) as [[b0 b1]|]; [|exact C1].
+  destruct (Z.leb_spec 2 (e_off e + e_lead e)) as [G2|G2]; [|exact C1].
   rewrite write_at_cell; [|lia|cbn [length]; lia|lia]. cbn [length].
   replace ((e_off e + e_lead e - 2 <=? e_off e + e_lead e + k) && (e_off e + e_lead e + k <? e_off e + e_lead e - 2 + Z.of_nat 2))
     with false by (symmetry; apply andb_false_iff; right; apply Z.ltb_ge; lia).
   exact C1.
 Qed.
 
-Lemma patch_site_opcode data e o j : site_wf data e -> 0 <= j < 2 ->
+Lemma patch_site_opcode data e o j : site_wf data e -> 2 <= e_off e + e_lead e -> 0 <= j < 2 ->
   cell (patch_site data e o) (e_off e + e_lead e - 2 + j) =
   match o_rewrite o with
   | Some (b0, b1) => if j =? 0 then b0 else b1
   | None => cell data (e_off e + e_lead e - 2 + j)
   end.
 Proof.
-  intros (H2 & Hv & Hb) Hj. unfold site_hi in Hb. unfold patch_site.
+  intros (H2 & Hv & Hb) G2 Hj. unfold site_hi in Hb. unfold patch_site.
   set (d1 := write_at data (e_off e + e_lead e) (le_bytes (Z.to_nat (vsize (e_fmt e))) (o_word o))).
   assert (L1 : length d1 = length data) by (apply write_at_length; [lia|rewrite le_bytes_length; lia]).
   assert (C1 : cell d1 (e_off e + e_lead e - 2 + j) = cell data (e_off e + e_lead e - 2 + j)).
   { unfold d1. rewrite write_at_cell; [|lia|rewrite le_bytes_length; lia|lia].
     replace (e_off e + e_lead e <=? e_off e + e_lead e - 2 + j) with false by (symmetry; apply Z.leb_gt; lia). reflexivity. }
   destruct (o_rewrite o) as [[b0 b1]|]; [|exact C1].
+  replace (2 <=? e_off e + e_lead e) with true by (symmetry; apply Z.leb_le; lia).
   rewrite write_at_cell; [|lia|cbn [length]; lia|lia]. cbn [length].
   replace ((e_off e + e_lead e - 2 <=? e_off e + e_lead e - 2 + j) && (e_off e + e_lead e - 2 + j <? e_off e + e_lead e - 2 + Z.of_nat 2))
     with true by (symmetry; apply andb_true_iff; split; [apply Z.leb_le|apply Z.ltb_lt]; lia).
@@ -61,9 +63,9 @@ Lemma patch_all_outside es : forall outs data c, 0 <= c ->
 Proof.
   induction es as [|e t IH]; intros outs data c Hc H; cbn [patch_all]; [reflexivity|]. destruct outs as [|o ot]; [reflexivity|].
   destruct (H e (or_introl eq_refl)) as ((H2 & Hv & Hb) & Hout). unfold site_lo, site_hi in *.
-  rewrite IH; [apply patch_site_outside; assumption|assumption|].
+  rewrite IH; [apply patch_site_outside; try assumption; lia|assumption|].
   intros e' He'. destruct (H e' (or_intror He')) as ((A & B & C) & D). split; [|exact D].
-  split; [exact A|split; [exact B|]]. unfold site_hi in *. rewrite (patch_site_length data e o H2 Hv Hb). exact C.
+  split; [exact A|split; [exact B|]]. unfold site_hi in *. rewrite (patch_site_length data e o ltac:(lia) Hv Hb). exact C.
 Qed.
 
 Definition sites_disjoint (es : list rentry) : Prop :=
@@ -75,14 +77,14 @@ Theorem patch_all_site es : forall outs data i e o,
   nth_error es i = Some e -> nth_error outs i = Some o ->
   (forall k, 0 <= k < vsize (e_fmt e) ->
      cell (patch_all data es outs) (e_off e + e_lead e + k) = cell (le_bytes (Z.to_nat (vsize (e_fmt e))) (o_word o)) k) /\
-  (forall j, 0 <= j < 2 ->
+  (2 <= e_off e + e_lead e -> forall j, 0 <= j < 2 ->
      cell (patch_all data es outs) (e_off e + e_lead e - 2 + j) =
      match o_rewrite o with Some (b0, b1) => if j =? 0 then b0 else b1 | None => cell data (e_off e + e_lead e - 2 + j) end).
 Proof.
   induction es as [|e0 t IH]; intros outs data i e o Hwf Hdis He Ho; [destruct i; discriminate|].
   destruct outs as [|o0 ot]; [destruct i; discriminate|]. cbn [patch_all].
   destruct (Hwf e0 (or_introl eq_refl)) as (H2 & Hv & Hb).
-  assert (Hlen : length (patch_site data e0 o0) = length data) by (apply patch_site_length; assumption).
+  assert (Hlen : length (patch_site data e0 o0) = length data) by (apply patch_site_length; try assumption; lia).
   assert (Hwf' : forall e', In e' t -> site_wf (patch_site data e0 o0) e').
   { intros e' H. destruct (Hwf e' (or_intror H)) as (A & B & C). split; [exact A|split; [exact B|]]. rewrite Hlen. exact C. }
   assert (Hdis' : sites_disjoint t).
@@ -95,41 +97,30 @@ Proof.
     split.
     + intros k Hk. rewrite patch_all_outside; [apply patch_site_word; [exact (conj H2 (conj Hv Hb))|exact Hk]|lia|].
       apply Hout. unfold site_lo, site_hi. lia.
-    + intros j Hj. rewrite patch_all_outside; [apply patch_site_opcode; [exact (conj H2 (conj Hv Hb))|exact Hj]|lia|].
+    + intros G2 j Hj. rewrite patch_all_outside; [apply patch_site_opcode; [exact (conj H2 (conj Hv Hb))|exact G2|exact Hj]|lia|].
       apply Hout. unfold site_lo, site_hi. lia.
   - destruct (IH ot (patch_site data e0 o0) i e o Hwf' Hdis' He Ho) as (A & B). split; [exact A|].
-    intros j Hj. rewrite (B j Hj). destruct (o_rewrite o) as [[b0 b1]|]; [reflexivity|].
+    intros G2 j Hj. rewrite (B G2 j Hj). destruct (o_rewrite o) as [[b0 b1]|]; [reflexivity|].
     (* the unpatched opcode bytes of site i lie outside site 0 *)
     destruct (Hwf e (or_intror (nth_error_In _ _ He))) as (E2 & Ev & Eb).
-    apply patch_site_outside; try assumption; [lia|].
+    apply patch_site_outside; try assumption; try lia.
     destruct (Hdis O (S i) e0 e eq_refl He ltac:(lia)) as [D|D]; unfold site_lo, site_hi in *; lia.
 Qed.
 
 (* ------------------------------------------------------------------ composition with C10's JitRuntime::_add model *)
 From Verif Require Import Sections.SectionTable Sections.SectionProofs.
 
-Definition calls_disjoint (calls : list (Z * Z)) : Prop :=
-  forall i j a b, nth_error calls i = Some a -> nth_error calls j = Some b -> i <> j -> fst a + CALL_LEN <= fst b \/ fst b + CALL_LEN <= fst a.
-
-Lemma site_entry_disjoint off calls : calls_disjoint calls -> sites_disjoint (map (site_entry off) calls).
-Proof.
-  intros H i j a b Ha Hb Hn. rewrite nth_error_map in Ha, Hb.
-  destruct (nth_error calls i) as [ca|] eqn:Ea; [|discriminate]. destruct (nth_error calls j) as [cb|] eqn:Eb; [|discriminate].
-  injection Ha as <-. injection Hb as <-. unfold site_hi, site_lo, site_entry. cbn [e_off e_lead e_fmt vsize sfmt].
-  destruct (H i j ca cb Ea Eb Hn); unfold CALL_LEN in *; lia.
-Qed.
-
-(* the bytes JitRuntime::_add installs at the i-th `call <absolute>` site: the relocated rel32 word and, when the call was routed
-   through the address table, FF 15 in front of it (otherwise the emitted 40 E8) *)
+(* the bytes JitRuntime::_add installs at the i-th relocation site when it is a `call <absolute>`: the relocated rel32 word and, when
+   the call was routed through the address table, FF 15 in front of it (otherwise the emitted 40 E8) *)
 Theorem installed_call_site st calls base fill final img h2 i pos target :
   wf_holder (jh st) -> data_len_ok (jh st) ->
   (forall h1, flatten (jh st) = (EOk, h1) -> NoDup (map sid h1) /\ (forall s, In s h1 -> 0 <= sid s)) ->
-  jtab st <> Some 0 -> calls_disjoint calls ->
+  jtab st <> Some 0 -> (forall h off, sites_disjoint (map (site_entry h off) calls)) ->
   jit_add_reloc st calls base fill = (JOk, final, img, h2) ->
-  nth_error calls i = Some (pos, target) ->
+  nth_error calls i = Some (SCall pos target) ->
   exists h1 text atoff reserved last r o,
     flatten (jh st) = (EOk, h1) /\ by_id h1 0 = Some text /\
-    relocate base REG_SIZE atoff reserved last (map (site_entry (soff text)) calls) = inl r /\
+    relocate base REG_SIZE atoff reserved last (map (site_entry h1 (soff text)) calls) = inl r /\
     nth_error (rr_outs r) i = Some o /\
     (forall k, 0 <= k < 4 -> soff text + pos + 2 + k < final ->
        cell (flat img) (soff text + pos + 2 + k) = cell (le_bytes 4 (o_word o)) k) /\
@@ -140,11 +131,11 @@ Proof.
   intros Hwf Hdl Hid Htab Hcd E Hi.
   destruct (jit_add_reloc_image st calls base fill final img h2 Hwf Hdl Hid E) as (h1 & red & Ef & Er & Efin & Hoff & Hcells & _).
   destruct (Hid h1 Ef) as (Hnd & Hpos).
-  destruct (flatten_copy_ready (jh st) h1 Hwf Hdl Ef) as (Hd & _).
+  destruct (final_copy_ready (jh st) h1 Hwf Hdl Ef) as (Hd & _).
   unfold relocate_holder in Er.
   destruct (by_id h1 0) as [text|] eqn:Et; [|discriminate].
   destruct (forallb (site_in_bounds text) calls) eqn:Eb; cbn [negb] in Er; [|discriminate].
-  set (es := map (site_entry (soff text)) calls) in *.
+  set (es := map (site_entry h1 (soff text)) calls) in *.
   destruct (match jtab st with
             | Some t0 => match by_id h1 t0 with Some ts => (t0, soff ts, svsize ts, is_last h1 t0) | None => (-1, 0, 0, false) end
             | None => (-1, 0, 0, false) end) as [[[t atoff] reserved] last] eqn:Esel.
@@ -155,12 +146,11 @@ Proof.
   destruct (by_id_in _ _ _ Et) as (Esid & Hin).
   rewrite Forall_forall in Hd. destruct (Hd text Hin) as (Hlen & _).
   destruct (relocate_table _ _ _ _ _ _ _ Erel) as (_ & _ & _ & Hlo).
-  assert (Hei : nth_error es i = Some (site_entry (soff text) (pos, target))) by (unfold es; rewrite nth_error_map, Hi; reflexivity).
+  assert (Hei : nth_error es i = Some (site_entry h1 (soff text) (SCall pos target))) by (unfold es; rewrite nth_error_map, Hi; reflexivity).
   assert (Hoi : exists o, nth_error (rr_outs r) i = Some o).
   { destruct (nth_error (rr_outs r) i) as [o|] eqn:Eo; [eauto|]. apply nth_error_None in Eo.
     assert (i < length es)%nat by (apply nth_error_Some; congruence). lia. }
   destruct Hoi as (o & Ho).
-  (* the relocated .text section *)
   set (text2 := set_data text (patch_all (sdata text) es (rr_outs r))).
   assert (Hin2 : In text2 h2).
   { rewrite <- Eh2. apply in_map_iff. exists text. split; [|exact Hin].
@@ -170,27 +160,29 @@ Proof.
   { intros e' He'. unfold es in He'. apply in_map_iff in He'. destruct He' as (c & <- & Hc).
     rewrite forallb_forall in Eb. specialize (Eb c Hc). unfold site_in_bounds in Eb.
     apply andb_true_iff in Eb. destruct Eb as (Eb1 & E3). apply andb_true_iff in Eb1. destruct Eb1 as (E1 & E2).
-    apply Z.leb_le in E1, E3. apply Z.ltb_lt in E2. unfold site_wf, site_hi, site_entry, CALL_LEN in *. cbn [e_off e_lead e_fmt vsize sfmt]. lia. }
-  destruct (patch_all_site es (rr_outs r) (sdata text) i _ o Hwfs (site_entry_disjoint _ _ Hcd) Hei Ho) as (PW & PO).
+    apply Z.leb_le in E1, E3. apply Z.ltb_lt in E2.
+    destruct c; unfold site_wf, site_hi, site_entry, site_pos, site_len, CALL_LEN, ABS_LEN in *; cbn [e_off e_lead e_fmt vsize sfmt ufmt]; lia. }
+  destruct (patch_all_site es (rr_outs r) (sdata text) i _ o Hwfs (Hcd _ _) Hei Ho) as (PW & PO).
   cbn [site_entry e_off e_lead e_fmt vsize sfmt fst snd] in PW, PO.
   destruct (Hwfs _ (nth_error_In _ _ Hei)) as (S2 & _ & S3). unfold site_hi in S3. cbn [site_entry e_off e_lead e_fmt vsize sfmt fst snd] in S2, S3.
+  rewrite forallb_forall in Eb. pose proof (Eb _ (nth_error_In _ _ Hi)) as Ebi. unfold site_in_bounds, site_pos in Ebi.
+  apply andb_true_iff in Ebi. destruct Ebi as (Ebi & _). apply andb_true_iff in Ebi. destruct Ebi as (Ep0 & _). apply Z.leb_le in Ep0.
   exists h1, text, atoff, reserved, last, r, o. repeat split; auto.
   - intros k Hk Hf. specialize (Hcells text2 Hin2 (pos + 2 + k)).
     assert (Hb2 : sbsize text2 = sbsize text) by reflexivity. assert (Ho2 : soff text2 = soff text) by reflexivity.
     rewrite Hb2, Ho2 in Hcells. replace (soff text + (pos + 2 + k)) with (soff text + pos + 2 + k) in Hcells by lia.
-    rewrite Hcells by lia. change (sdata text2) with (patch_all (sdata text) es (rr_outs r)).
-    replace (pos + 2 + k) with (pos + 2 + k) by lia. exact (PW k Hk).
+    rewrite Hcells by lia. change (sdata text2) with (patch_all (sdata text) es (rr_outs r)). exact (PW k Hk).
   - intros j Hj Hf. specialize (Hcells text2 Hin2 (pos + j)).
     assert (Hb2 : sbsize text2 = sbsize text) by reflexivity. assert (Ho2 : soff text2 = soff text) by reflexivity.
     rewrite Hb2, Ho2 in Hcells. replace (soff text + (pos + j)) with (soff text + pos + j) in Hcells by lia.
     rewrite Hcells by lia. change (sdata text2) with (patch_all (sdata text) es (rr_outs r)).
-    specialize (PO j Hj). replace (pos + 2 - 2 + j) with (pos + j) in PO by lia. exact PO.
+    specialize (PO ltac:(lia) j Hj). replace (pos + 2 - 2 + j) with (pos + j) in PO by lia. exact PO.
 Qed.
 
-(* what the relocated word / opcode bytes of the i-th call mean (C04_relocate_all_sound + C04_addr_entry_exact on C10's entries) *)
-Theorem call_out_reaches base atoff reserved last text_off calls r i pos target o :
-  relocate base REG_SIZE atoff reserved last (map (site_entry text_off) calls) = inl r ->
-  nth_error calls i = Some (pos, target) -> nth_error (rr_outs r) i = Some o ->
+(* what the relocated word / opcode bytes of the i-th site mean when it is a call (C04_relocate_all_sound + C04_addr_entry_exact) *)
+Theorem call_out_reaches base atoff reserved last h text_off calls r i pos target o :
+  relocate base REG_SIZE atoff reserved last (map (site_entry h text_off) calls) = inl r ->
+  nth_error calls i = Some (SCall pos target) -> nth_error (rr_outs r) i = Some o ->
   let next := text_off + pos + CALL_LEN in
   let d := decode_kind K_Rel32 (o_word o) in
   (o_rewrite o = None /\ rel_target 64 base next d = target mod 2 ^ 64) \/
@@ -199,10 +191,10 @@ Theorem call_out_reaches base atoff reserved last text_off calls r i pos target 
                 rel_target 64 base next d = (base + atoff + slot * REG_SIZE) mod 2 ^ 64).
 Proof.
   intros Er Hi Ho next d. unfold relocate in Er.
-  destruct (relocate_all base REG_SIZE atoff [] (map (site_entry text_off) calls)) as [[os slots]|x] eqn:Ea; [|discriminate].
+  destruct (relocate_all base REG_SIZE atoff [] (map (site_entry h text_off) calls)) as [[os slots]|x] eqn:Ea; [|discriminate].
   injection Er as <-. cbn [rr_outs rr_table] in *.
   destruct (relocate_all_sound _ _ _ _ _ _ _ Ea) as (_ & _ & _ & Hall).
-  assert (He : nth_error (map (site_entry text_off) calls) i = Some (site_entry text_off (pos, target))) by (rewrite nth_error_map, Hi; reflexivity).
+  assert (He : nth_error (map (site_entry h text_off) calls) i = Some (site_entry h text_off (SCall pos target))) by (rewrite nth_error_map, Hi; reflexivity).
   destruct (Hall i _ o He Ho) as (s1 & s2 & Hre & _ & Hext).
   destruct (reloc_addr_entry_exact base REG_SIZE atoff s1 _ o s2 Hre 232 eq_refl eq_refl eq_refl) as [(A & _ & B)|(slot & modrm & A & _ & Hm & _ & (Hs0 & _) & Hn & B & _)].
   - left. split; [exact A|]. exact B.
